@@ -93,7 +93,7 @@ func CrashSignature(out string) string {
 		}
 		if msg != "" && frame == "" && strings.HasPrefix(l, "github.com/indexsupply/shovel/") {
 			frame = strings.TrimSpace(l)
-			if j := strings.Index(frame, "("); j > 0 {
+			if j := strings.LastIndex(frame, "("); j > 0 {
 				frame = frame[:j]
 			}
 		}
